@@ -8,14 +8,15 @@ From Coq Require Import ZArith Arith Lia List Bool.
 From Core Require Import Base Kron Op C08_Diag.
 Import ListNotations.
 
-Inductive alg := AExact | AAuto (tp tq : Z).      (* Exact(), Auto(tol = tp/tq)  (default tol = 1/10^6) *)
+Inductive alg := AExact | AAuto (tp tq : Z) | ADefault.
+(* Exact(), Auto(tol = tp/tq), Auto() = the default argument (tolerance test with 1/10^6; Hutch() with its own default 3e-2) *)
 Inductive derr := DAssert | DValue | DStoch | DUnmodelled.
 (* DStoch: Auto selected Hutchinson (stochastic; outside this property).  DUnmodelled: generic rule on a non-square operator *)
 Definition derr_eqb (a b : derr) : bool :=
   match a, b with DAssert, DAssert | DValue, DValue | DStoch, DStoch | DUnmodelled, DUnmodelled => true | _, _ => false end.
 (* exact_faster = tol < 1 / sqrt(10 * prod(shape)), in exact arithmetic for tol = tp/tq > 0:  10*m*n*tp^2 < tq^2 *)
 Definition auto_exact (tp tq : Z) (m n : nat) : bool := (tp * tp * 10 * Z.of_nat m * Z.of_nat n <? tq * tq)%Z.
-Definition default_auto : alg := AAuto 1 1000000.
+Definition default_auto : alg := ADefault.
 (* behaviours of the pinned tree that contradict the property (false = as pinned, true = repaired) *)
 Record dflags := mkdflags {
   d_ragged_fixed : bool;   (* exact_diag_ragged_chunk: the shifted chunk follows the width of a ragged last block *)
@@ -55,7 +56,10 @@ Definition generic_diag (df : dflags) (B : nat) (al : alg) (e : op) (k : Z) : de
              else inl DUnmodelled in
   match al with
   | AExact => run
-  | AAuto tp tq => if auto_exact tp tq m n then run else inl DStoch
+  | AAuto tp tq => if auto_exact tp tq m n then run
+                   else if (tp * 1000 <=? tq)%Z then inl DAssert   (* Hutch(tol=tp/tq): assert tol > 1e-3 *)
+                   else inl DStoch
+  | ADefault => if auto_exact 1 1000000 m n then run else inl DStoch
   end.
 
 Fixpoint diag_rule (df : dflags) (B : nat) (al : alg) (e : op) (k : Z) {struct e} : derr + list R :=
